@@ -147,10 +147,19 @@ def bath_modes(chk, n):
             want = exact_occupation(np.array(tl), w0, g0, T)
             bad = not np.allclose(occ, want, rtol=1e-4, atol=1e-6)
             sel = len(tl) // 2
-            for dagg in ((0, 0), (0, 1), (1, 0), (1, 1)):
-                got = quiet(tb.correlation, w0, tl[sel], w1, tl[-1], dagg=dagg, progress_type="silent")
-                ex = exact_correlation(tl[sel], tl[-1], w0, w1, dagg, g0, g1, T)
-                bad = bad or not np.allclose(got, ex, rtol=1e-4, atol=1e-6)
+            w_other = w1 if w1 != w0 else 3.0
+            g_other = corr.spectral_density(w_other) ** 0.5
+            # every dagger pattern at equal AND at different frequencies, at different and at equal times
+            pairs = [(w0, g0, w0, g0), (w0, g0, w_other, g_other)]
+            tpairs = [(tl[sel], tl[-1]), (tl[-1], tl[-1])] if it % 2 == 0 else [(tl[sel], tl[-1]), (tl[sel], tl[sel])]
+            for (wa, ga, wb, gb) in pairs:
+                for (ta, tb_) in tpairs:
+                    for dagg in ((0, 0), (0, 1), (1, 0), (1, 1)):
+                        got = quiet(tb.correlation, wa, ta, wb, tb_, dagg=dagg, progress_type="silent")
+                        ex = exact_correlation(ta, tb_, wa, wb, dagg, ga, gb, T)
+                        if not np.allclose(got, ex, rtol=1e-4, atol=1e-6):
+                            bad = True
+                            info["first_bad"] = {"freq": [wa, wb], "times": [float(ta), float(tb_)], "dagg": list(dagg), "got": complex(got), "exact": complex(ex)}
         except Exception as ex_:
             chk.fail("bath-modes-raise", f"TwoTimeBathCorrelations raises {ex_!r}", info)
             continue
